@@ -89,7 +89,7 @@ def failing(name, rng=None):
         s['faults'] = [{'at': 'kexinit', 'op': 'patch', 'offset': 5, 'hex': '15'}]
     elif name == 'garbage-banner':
         s['faults'] = [{'at': 'banner', 'op': 'random', 'seed': 3, 'len': 80}, {'at': 'banner', 'op': 'then_close'}]
-    elif name in ('unresolvable', 'refused', 'badname'):
+    elif name in ('unresolvable', 'refused', 'badname', 'refused-top-port'):
         return None
     else:
         raise ValueError(name)
@@ -108,6 +108,11 @@ class Target:
         elif kind == 'refused':
             self.peer = peermod.ServerPeer({'banner': 'x', 'kex': {}}, listen=False)
             self.spec = self.peer.target()
+        elif kind == 'refused-top-port':
+            # nothing listens on the highest valid port of a loopback address nobody else uses (ephemeral ports end below it)
+            import os as _os
+            b = _os.urandom(3)
+            self.spec = '127.%d.%d.%d:65535' % (b[0], b[1], 1 + b[2] % 254)
         elif kind == 'unresolvable':
             self.spec = 'no-such-host-%s.invalid:2222' % name
         elif kind == 'badname':
